@@ -554,24 +554,29 @@ Definition port_check (n : N) : bool :=
   match py_int ds with Some z => Z.eqb z (Z.of_N n) | None => false end &&
   all_ascii ds && forallb (not_in [64; 47; 63; 35; 93]) ds && forallb is_digit ds.
 
-Lemma port_check_all : forallb port_check (range 65536) = true.
-Proof. vm_compute. reflexivity. Qed.
+(* a port the round trip is claimed for: absent, or non-negative with a decimal rendering that int()
+   reads back (Proofs/C06_Ports.v shows by exhaustive computation that every port 0..65535 is) *)
+Definition port_wf (p : option Z) : bool :=
+  match p with
+  | None => true
+  | Some p => (0 <=? p)%Z && port_check (Z.to_N p)
+  end.
 
-Lemma port_digits n : n < 65536 ->
+Lemma port_digits n : port_check n = true ->
   py_int (str_of_N n) = Some (Z.of_N n) /\ all_ascii (str_of_N n) = true /\
   forallb (not_in [64; 47; 63; 35; 93]) (str_of_N n) = true /\ forallb is_digit (str_of_N n) = true.
 Proof.
-  intro H. pose proof (forallb_range 65536 _ port_check_all n H) as C. unfold port_check in C.
+  intro C. unfold port_check in C.
   apply andb_true_iff in C as [C C4]. apply andb_true_iff in C as [C C3]. apply andb_true_iff in C as [C1 C2].
   destruct (py_int (str_of_N n)) as [z|]; [|discriminate]. apply Z.eqb_eq in C1. subst z. auto.
 Qed.
 
-(* what the parser reads for the port of a URL whose port is None or in 0..65535 *)
+(* what the parser reads for the port *)
 Definition port_back (T : tables) (u : url) : option Z :=
   match port_text T u with [] => None | _ => u_port u end.
 
 Lemma port_text_ok T u :
-  match u_port u with Some p => (0 <= p < 65536)%Z | None => True end ->
+  port_wf (u_port u) = true ->
   (port_text T u = [] /\ port_back T u = None) \/
   (exists ds p, port_text T u = 58 :: ds /\ port_back T u = Some p /\ py_int ds = Some p /\
                 all_ascii ds = true /\ forallb (not_in [64; 47; 63; 35; 93]) ds = true /\
@@ -580,8 +585,9 @@ Proof.
   intro V. unfold port_back, port_text. destruct (u_port u) as [p|]; [|left; auto].
   destruct (negb (p =? 0)%Z && negb (optZ_eqb (Some p) (default_port T u))); [|left; auto].
   right. exists (str_of_Z p), p.
+  cbn [port_wf] in V. apply andb_true_iff in V as [V0 V1]. apply Z.leb_le in V0.
   assert (E : str_of_Z p = str_of_N (Z.to_N p)) by (destruct p; try reflexivity; lia).
-  destruct (port_digits (Z.to_N p)) as [P1 [P2 [P3 P4]]]; [lia|].
+  destruct (port_digits (Z.to_N p) V1) as [P1 [P2 [P3 P4]]].
   rewrite E. rewrite Z2N.id in P1 by lia. repeat split; assumption.
 Qed.
 
@@ -602,7 +608,7 @@ Theorem roundtrip_gen T O :
   (exists hraw, split_hostport O (ht ++ port_text T u) = MOk (hraw, port_back T u) /\
                 parse_host O hraw = MOk (fam', hp)) ->
   decode_host O hp = MOk h2 ->
-  match port with Some p => (0 <= p < 65536)%Z | None => True end ->
+  port_wf port = true ->
   to_text T O true u = MOk (rendered T O ht (port_text T u) scheme user pw ([] :: rest) q frag) /\
   url_init T O (rendered T O ht (port_text T u) scheme user pw ([] :: rest) q frag)
   = MOk (mkU scheme true (nfc user) (nfc pw) fam' h2 (port_back T u)
@@ -640,7 +646,7 @@ Theorem roundtrip T O :
   ht <> [] -> forallb (not_in [58; 64; 47; 63; 35]) ht = true -> o_inet4 O ht = MOk b4 ->
   (if all_ascii ht then o_idna_dec O ht = MOk h2 else h2 = ht) ->
   (* port: absent or 0..65535 *)
-  match port with Some p => (0 <= p < 65536)%Z | None => True end ->
+  port_wf port = true ->
   exists full u',
     to_text T O true u = MOk full /\ url_init T O full = MOk u' /\
     u_user u' = nfc user /\ u_pass u' = nfc pw /\ u_path u' = map nfc ([] :: rest) /\
@@ -676,7 +682,7 @@ Theorem roundtrip_v6 T O :
   (* host: an address with a ':' and none of ] @ / ? #, which inet_pton(AF_INET6) accepts *)
   memN 58 host = true -> forallb (not_in [93; 64; 47; 63; 35]) host = true ->
   o_inet6 O host = MOk V6Ok -> decode_host O host = MOk h2 ->
-  match port with Some p => (0 <= p < 65536)%Z | None => True end ->
+  port_wf port = true ->
   exists full u',
     to_text T O true u = MOk full /\ url_init T O full = MOk u' /\
     u_user u' = nfc user /\ u_pass u' = nfc pw /\ u_path u' = map nfc ([] :: rest) /\
@@ -736,7 +742,7 @@ Theorem fixpoint_full_gen T O :
                 parse_host O hraw = MOk (fam', hp)) ->
   decode_host O hp = MOk h2 ->
   get_authority T O true u1 = MOk (authority T O ht (port_text T u) (nfc user) (nfc pw)) ->
-  match port with Some p => (0 <= p < 65536)%Z | None => True end ->
+  port_wf port = true ->
   forall full u', to_text T O true u = MOk full -> url_init T O full = MOk u' ->
   to_text T O true u' = MOk full.
 Proof.
@@ -767,7 +773,7 @@ Theorem fixpoint_full_class T O :
   (if all_ascii ht then o_idna_dec O ht = MOk h2 else h2 = ht) ->
   (* the decoded host encodes to the same text again (IDNA round trip) *)
   h2 <> [] -> memN 58 h2 = false -> o_idna_enc O h2 = MOk ht ->
-  match port with Some p => (0 <= p < 65536)%Z | None => True end ->
+  port_wf port = true ->
   forall full u', to_text T O true u = MOk full -> url_init T O full = MOk u' ->
   to_text T O true u' = MOk full.
 Proof.
@@ -801,7 +807,7 @@ Theorem fixpoint_full_v6 T O :
   Forall (pair_ok O) q ->
   memN 58 host = true -> forallb (not_in [93; 64; 47; 63; 35]) host = true ->
   o_inet6 O host = MOk V6Ok -> decode_host O host = MOk host ->
-  match port with Some p => (0 <= p < 65536)%Z | None => True end ->
+  port_wf port = true ->
   forall full u', to_text T O true u = MOk full -> url_init T O full = MOk u' ->
   to_text T O true u' = MOk full.
 Proof.
